@@ -16,6 +16,7 @@ from . import mir as M
 from .engine import Executor, State, Unsupported
 from . import models as MODELS
 from . import envmodels  # noqa: F401  (registers environment models)
+from . import models2    # noqa: F401  (second batch of std models, lowest priority)
 
 _G = {}
 
